@@ -19,6 +19,8 @@ pub type FilterFn = dyn Fn(&[Ev], &Ev) -> bool + Sync + Send;
 
 #[derive(Clone)]
 pub struct Scenario {
+	/// property whose known-findings list applies
+	pub property: String,
 	pub name: String,
 	pub cfg: Config,
 	/// commit choices, simplest first
@@ -47,6 +49,7 @@ impl Scenario {
 	pub fn new(name: &str, cfg: Config, alphabet: Vec<Tx>) -> Scenario {
 		let universe = universe_of(&cfg, &alphabet, &[]);
 		Scenario {
+			property: String::new(),
 			name: name.into(),
 			cfg,
 			alphabet,
@@ -100,6 +103,7 @@ pub struct Stats {
 	pub pm_steps_checked: u64,
 	pub rejected_commits: u64,
 	pub levels: Vec<(usize, usize)>,
+	pub known_hits: std::collections::BTreeMap<String, u64>,
 	pub complete: bool,
 	pub capped_reason: Option<String>,
 }
@@ -117,6 +121,9 @@ impl Stats {
 		self.pm_validated_traces += o.pm_validated_traces;
 		self.pm_steps_checked += o.pm_steps_checked;
 		self.rejected_commits += o.rejected_commits;
+		for (k, v) in o.known_hits.iter() {
+			*self.known_hits.entry(k.clone()).or_insert(0) += v;
+		}
 		self.complete &= o.complete;
 		if self.capped_reason.is_none() {
 			self.capped_reason = o.capped_reason.clone();
@@ -204,6 +211,8 @@ pub struct EdgeOut {
 	pub rejected: bool,
 	/// stage events the pipeline model considers able to change the state here (bit per St)
 	pub pm_mask: u8,
+	/// ids of listed known findings that this execution ran into (tolerated, reported once)
+	pub known: Vec<String>,
 }
 
 pub enum EdgeRes {
@@ -257,7 +266,13 @@ fn run_edge_here(scn: &Scenario, dir: &Path, hist: &[Ev], ev: Option<&Ev>) -> Ed
 			}
 			ex.apply(ev)?;
 		}
-		ex.check()?;
+		let mut known = vec![];
+		for f in ex.check_all() {
+			match crate::report::match_known(&scn.property, &format!("{}: {}", f.kind, f.msg)) {
+				Some(k) => known.push(k.id.clone()),
+				None => return Err(f),
+			}
+		}
 		if let Some(post) = &scn.post {
 			let mut full: Vec<Ev> = hist.to_vec();
 			if let Some(ev) = ev {
@@ -296,6 +311,7 @@ fn run_edge_here(scn: &Scenario, dir: &Path, hist: &[Ev], ev: Option<&Ev>) -> Ed
 			pm_steps: ex.pm_checked,
 			rejected: ex.rejected > rejected_before,
 			pm_mask: ex.pm.mask(),
+			known,
 		}))
 	})();
 	match res {
@@ -466,6 +482,9 @@ pub fn graph_search(scn: &Scenario, budget: &Budget) -> (Stats, Option<Found>) {
 					if o.rejected {
 						stats.rejected_commits += 1;
 					}
+					for k in o.known.iter() {
+						*stats.known_hits.entry(k.clone()).or_insert(0) += 1;
+					}
 					if seen.insert(o.identity) {
 						stats.transitions += 1;
 						if o.multi_stage {
@@ -517,7 +536,15 @@ fn run_history_here(scn: &Scenario, dir: &Path, hist: &[Ev]) -> Result<(), (usiz
 		if matches!(e, Ev::Stage(St::E)) && ex.enact_would_block() {
 			continue
 		}
-		if let Err(f) = ex.apply(e).and_then(|_| ex.check()).and_then(|_| {
+		let chk = |ex: &Exec| -> Result<(), Fail> {
+			for f in ex.check_all() {
+				if crate::report::match_known(&scn.property, &format!("{}: {}", f.kind, f.msg)).is_none() {
+					return Err(f)
+				}
+			}
+			Ok(())
+		};
+		if let Err(f) = ex.apply(e).and_then(|_| chk(&ex)).and_then(|_| {
 			if let Some(post) = &scn.post {
 				post(&mut ex, &hist[..=i])
 			} else {
@@ -617,7 +644,7 @@ pub fn encode_edge(r: &EdgeRes) -> Vec<u8> {
 		EdgeRes::Skip => json!({"t": "skip"}),
 		EdgeRes::Fail(f) => json!({"t": "fail", "kind": f.kind, "msg": f.msg}),
 		EdgeRes::Ok(o) => json!({"t": "ok", "id": format!("{:032x}", o.identity), "model": o.model, "obs": o.obs,
-			"ms": o.multi_stage, "pm": o.pm_steps, "rej": o.rejected, "mask": o.pm_mask}),
+			"ms": o.multi_stage, "pm": o.pm_steps, "rej": o.rejected, "mask": o.pm_mask, "known": o.known}),
 	};
 	serde_json::to_vec(&j).unwrap()
 }
@@ -635,6 +662,7 @@ pub fn decode_edge(b: &[u8]) -> EdgeRes {
 			pm_steps: j["pm"].as_u64().unwrap(),
 			rejected: j["rej"].as_bool().unwrap(),
 			pm_mask: j["mask"].as_u64().unwrap() as u8,
+			known: j["known"].as_array().unwrap().iter().map(|x| x.as_str().unwrap().to_string()).collect(),
 		}),
 	}
 }
